@@ -181,3 +181,18 @@ Lemma l_merged : forall szs us d es, model_merged szs us d es = model_merged_fix
 Proof. reflexivity. Qed.
 Lemma l_geo_merge : forall szs d es, model_geo_merge szs d es = model_merged_fixed szs [] d es.
 Proof. reflexivity. Qed.
+
+(* ------------------------------------------------------------------ GenomeContext.with_ignored_added (shape tie) *)
+(* the source hands `self.__class__` the dict  <base> updated with {name: <size> for name in ignored}  and the set
+   union of the operands listed in gen_wia_ignored_set; the model reads that as below *)
+Definition m_wia_ignored_set : list string := ["ignored"%string; "self._ignored"%string].   (* added ∪ previously ignored *)
+Definition m_wia_dict_base : string := "self._original_chrom_sizes"%string.                   (* every original entry kept *)
+Lemma b_with_ignored_added :
+  gen_wia_ignored_set = m_wia_ignored_set /\ gen_wia_dict_base = m_wia_dict_base
+  /\ gen_wia_added_size = 0.                                                                  (* an added name gets size 0 *)
+Proof. repeat split; reflexivity. Qed.
+Lemma l_with_ignored_added : forall x a,
+  ctx_with_ignored_added x a = {| gx_dict := dict_update (gx_dict x) a; gx_ign := a ++ gx_ign x |}
+  /\ (forall d n, dict_add d n = if name_in n (map c_name d) then set_size0 n d
+                                 else d ++ [{| c_name := n; c_size := gen_wia_added_size |}]).
+Proof. intros. split; reflexivity. Qed.
